@@ -783,4 +783,23 @@ same 5 blocks again. -/
 example : (idxRun (fun p q s => s + q - p) { db := 5, marker := 0, mem := 0 } [.restart, .batch 5 false]).db = 10 := by
   decide
 
+/-- **a batch with reverts** moves data and marker together like any other: whatever the relation between the
+position the indexer stands on and the target (ahead, behind = reverts only, or on another fork = mixed), a
+successful batch leaves `db = delta mem target db`, `marker = target`, `mem = target`, a failed one nothing. -/
+theorem batch_with_reverts_moves_marker {σ : Type} (delta : Nat → Nat → σ → σ) (s : Idx σ) (target : Nat) (fails : Bool) :
+    idxStep delta s (.batch target fails) =
+      (if fails then s else { db := delta s.mem target s.db, marker := target, mem := target }) := by
+  cases fails <;> simp [idxStep]
+
+/-- positions 0 … 5 on one chain, state = number of blocks applied. A reorg brings the indexer from 5 back to 3
+(reverts-only batch), the process dies, restarts and indexes up to 6: converges … -/
+example : (idxRun (fun p q s => s + q - p) { db := 0, marker := 0, mem := 0 }
+    [.batch 5 false, .batch 3 false, .restart, .batch 6 false]).db = 6 := by decide
+
+/-- … whereas an indexer that does not write the marker in a reverts-only batch restarts from the stale marker
+5 with the state of 3 and ends somewhere else -/
+example : ([Ev.batch 5 false, .batch 3 false, .restart, .batch 6 false].foldl
+    (idxStepNoMarkerOnRevert (fun p q s => s + q - p) (fun p q => q < p)) { db := 0, marker := 0, mem := 0 }).db = 4 := by
+  decide
+
 end Hostd.Txn
